@@ -19,8 +19,9 @@ import (
 // Ignored: comments (Doc, Comment, Comments), positions, resolution results (Obj, Scope,
 // Unresolved), GoVersion (it is derived from a //go:build comment), ParenExpr wrappers,
 // the placement / grouping / order of import declarations (import specs are compared as
-// the sorted list of (name, path)), explicit empty statements (gofmt deletes a lone ";",
-// so `L: ; x()` and `L: x()` are the same list of labels and statements), and the
+// the sorted list of (name, path)), empty statements that are elements of a statement list
+// (gofmt deletes a lone ";"; the empty statement a label stands on is kept and compared,
+// whether written `L: ;` or implied before "}"), and the
 // difference between no result list and an empty one (`func f() ()`, which gofmt writes
 // as `func f()`).
 // Compared: everything else, node by node - node types, identifiers, operators, the
@@ -185,17 +186,12 @@ func stripParens(v reflect.Value) reflect.Value {
 	return v
 }
 
-// labelMark stands for the `L:` of a labelled statement in a flattened statement list.
-type labelMark struct{ Label *ast.Ident }
-
-func flatten(list []ast.Stmt, out []interface{}) []interface{} {
+// dropEmpty removes the empty statements of a statement list: gofmt deletes a lone ";"
+// (an empty statement that is the body of a label is not an element of the list and stays).
+func dropEmpty(list []ast.Stmt) []ast.Stmt {
+	var out []ast.Stmt
 	for _, s := range list {
-		switch x := s.(type) {
-		case *ast.EmptyStmt:
-		case *ast.LabeledStmt:
-			out = append(out, labelMark{x.Label})
-			out = flatten([]ast.Stmt{x.Stmt}, out)
-		default:
+		if _, ok := s.(*ast.EmptyStmt); !ok {
 			out = append(out, s)
 		}
 	}
@@ -212,42 +208,20 @@ var (
 var posMatters = map[string]bool{"GenDecl.Lparen": true, "CallExpr.Ellipsis": true, "TypeSpec.Assign": true}
 
 func (c *cmp) stmts(path string, la, lb []ast.Stmt) bool {
-	fa, fb := flatten(la, nil), flatten(lb, nil)
+	fa, fb := dropEmpty(la), dropEmpty(lb)
 	for i := 0; i < len(fa) && i < len(fb); i++ {
-		p := fmt.Sprintf("%s[%d]", path, i)
-		ma, aIsMark := fa[i].(labelMark)
-		mb, bIsMark := fb[i].(labelMark)
-		switch {
-		case aIsMark && bIsMark:
-			if ma.Label.Name != mb.Label.Name {
-				c.na, c.nb = append(c.na, ma.Label), append(c.nb, mb.Label)
-				return c.fail(p, "label differs: %s vs %s", ma.Label.Name, mb.Label.Name)
-			}
-		case aIsMark != bIsMark:
-			var na, nb ast.Node
-			if aIsMark {
-				na, nb = ma.Label, fb[i].(ast.Node)
-			} else {
-				na, nb = fa[i].(ast.Node), mb.Label
-			}
-			c.na, c.nb = append(c.na, na), append(c.nb, nb)
-			return c.fail(p, "a label on one side, a statement on the other")
-		default:
-			if !c.value(p, reflect.ValueOf(fa[i]), reflect.ValueOf(fb[i])) {
-				return false
-			}
+		if !c.value(fmt.Sprintf("%s[%d]", path, i), reflect.ValueOf(fa[i]), reflect.ValueOf(fb[i])) {
+			return false
 		}
 	}
 	if len(fa) != len(fb) {
 		// show the first statement that has no partner
 		if len(fa) > len(fb) {
-			if n, ok := fa[len(fb)].(ast.Node); ok {
-				return c.fail(path, "statement list has %d vs %d entries; the original continues at %s with: %s", len(fa), len(fb), c.fa.Position(n.Pos()), text(c.fa, n))
-			}
-		} else if n, ok := fb[len(fa)].(ast.Node); ok {
-			return c.fail(path, "statement list has %d vs %d entries; the output continues at %s with: %s", len(fa), len(fb), c.fb.Position(n.Pos()), text(c.fb, n))
+			n := fa[len(fb)]
+			return c.fail(path, "statement list has %d vs %d entries; the original continues at %s with: %s", len(fa), len(fb), c.fa.Position(n.Pos()), text(c.fa, n))
 		}
-		return c.fail(path, "statement list has %d vs %d entries", len(fa), len(fb))
+		n := fb[len(fa)]
+		return c.fail(path, "statement list has %d vs %d entries; the output continues at %s with: %s", len(fa), len(fb), c.fb.Position(n.Pos()), text(c.fb, n))
 	}
 	return true
 }
@@ -354,6 +328,8 @@ func (c *cmp) value(path string, a, b reflect.Value) bool {
 			ok := c.basicLit(path, x, y)
 			c.na, c.nb = c.na[:len(c.na)-1], c.nb[:len(c.nb)-1]
 			return ok
+		case *ast.EmptyStmt:
+			return true // `L: ;` and `L:` before "}" are both a label on an empty statement
 		case *ast.FieldList:
 			y := b.Interface().(*ast.FieldList)
 			return c.value(path+".List", reflect.ValueOf(x.List), reflect.ValueOf(y.List))
